@@ -90,6 +90,7 @@ type Machine struct {
 	wantSample   bool
 	spec         int // >0 while speculatively executing a pure region
 	noIfConv     bool
+	frozenSched  bool // harness asked for one deterministic schedule from here on
 	merges       int
 
 	// threads
@@ -136,6 +137,7 @@ func (m *Machine) resetPath(prefix []int) {
 	m.overApprox = false
 	m.sharedFields = map[string]bool{}
 	m.mapOrderAll = false
+	m.frozenSched = false
 	m.noIfConv = !m.cfg.Merge
 	m.side = map[interface{}]interface{}{}
 	m.threads = nil
@@ -288,6 +290,9 @@ func (m *Machine) branch(c *Term) bool {
 // choose picks a value in [0,n) — a free decision (scheduling, harness choice).
 func (m *Machine) choose(what string, n int) int {
 	if n <= 1 {
+		return 0
+	}
+	if m.frozenSched && (what == "sched" || what == "yield" || what == "select") {
 		return 0
 	}
 	if m.replayModel != nil {
